@@ -62,6 +62,56 @@ int main(int argc, char** argv) {
   CT(4, 12, 4, V2<T>(x[0], x[1]), V2<T>(x[2], x[3]))  // vec4(vec2, vec2)
   CT(4, 8, 4, V3<T>(x[0], x[1], x[2]), x[3])          // vec4(vec3, s)
   CT(4, 15, 4, x[0], V3<T>(x[1], x[2], x[3]))         // vec4(s, vec3)
+  // every argument-shape overload of vec2/vec3/vec4 (S = scalar, 1 = vec1, 2 = vec2, 3 = vec3), codes 1001…
+  CT(2, 1001, 2, x[0], x[1])   // vec2(S, S)
+  CT(2, 1002, 2, x[0], V1<T>(x[1]))   // vec2(S, 1)
+  CT(2, 1003, 2, V1<T>(x[0]), x[1])   // vec2(1, S)
+  CT(2, 1004, 2, V1<T>(x[0]), V1<T>(x[1]))   // vec2(1, 1)
+  CT(3, 1005, 3, x[0], x[1], x[2])   // vec3(S, S, S)
+  CT(3, 1006, 3, x[0], x[1], V1<T>(x[2]))   // vec3(S, S, 1)
+  CT(3, 1007, 3, x[0], V1<T>(x[1]), x[2])   // vec3(S, 1, S)
+  CT(3, 1008, 3, x[0], V1<T>(x[1]), V1<T>(x[2]))   // vec3(S, 1, 1)
+  CT(3, 1009, 3, x[0], V2<T>(x[1], x[2]))   // vec3(S, 2)
+  CT(3, 1010, 3, V1<T>(x[0]), x[1], x[2])   // vec3(1, S, S)
+  CT(3, 1011, 3, V1<T>(x[0]), x[1], V1<T>(x[2]))   // vec3(1, S, 1)
+  CT(3, 1012, 3, V1<T>(x[0]), V1<T>(x[1]), x[2])   // vec3(1, 1, S)
+  CT(3, 1013, 3, V1<T>(x[0]), V1<T>(x[1]), V1<T>(x[2]))   // vec3(1, 1, 1)
+  CT(3, 1014, 3, V1<T>(x[0]), V2<T>(x[1], x[2]))   // vec3(1, 2)
+  CT(3, 1015, 3, V2<T>(x[0], x[1]), x[2])   // vec3(2, S)
+  CT(3, 1016, 3, V2<T>(x[0], x[1]), V1<T>(x[2]))   // vec3(2, 1)
+  CT(4, 1017, 4, x[0], x[1], x[2], x[3])   // vec4(S, S, S, S)
+  CT(4, 1018, 4, x[0], x[1], x[2], V1<T>(x[3]))   // vec4(S, S, S, 1)
+  CT(4, 1019, 4, x[0], x[1], V1<T>(x[2]), x[3])   // vec4(S, S, 1, S)
+  CT(4, 1020, 4, x[0], x[1], V1<T>(x[2]), V1<T>(x[3]))   // vec4(S, S, 1, 1)
+  CT(4, 1021, 4, x[0], x[1], V2<T>(x[2], x[3]))   // vec4(S, S, 2)
+  CT(4, 1022, 4, x[0], V1<T>(x[1]), x[2], x[3])   // vec4(S, 1, S, S)
+  CT(4, 1023, 4, x[0], V1<T>(x[1]), x[2], V1<T>(x[3]))   // vec4(S, 1, S, 1)
+  CT(4, 1024, 4, x[0], V1<T>(x[1]), V1<T>(x[2]), x[3])   // vec4(S, 1, 1, S)
+  CT(4, 1025, 4, x[0], V1<T>(x[1]), V1<T>(x[2]), V1<T>(x[3]))   // vec4(S, 1, 1, 1)
+  CT(4, 1026, 4, x[0], V1<T>(x[1]), V2<T>(x[2], x[3]))   // vec4(S, 1, 2)
+  CT(4, 1027, 4, x[0], V2<T>(x[1], x[2]), x[3])   // vec4(S, 2, S)
+  CT(4, 1028, 4, x[0], V2<T>(x[1], x[2]), V1<T>(x[3]))   // vec4(S, 2, 1)
+  CT(4, 1029, 4, x[0], V3<T>(x[1], x[2], x[3]))   // vec4(S, 3)
+  CT(4, 1030, 4, V1<T>(x[0]), x[1], x[2], x[3])   // vec4(1, S, S, S)
+  CT(4, 1031, 4, V1<T>(x[0]), x[1], x[2], V1<T>(x[3]))   // vec4(1, S, S, 1)
+  CT(4, 1032, 4, V1<T>(x[0]), x[1], V1<T>(x[2]), x[3])   // vec4(1, S, 1, S)
+  CT(4, 1033, 4, V1<T>(x[0]), x[1], V1<T>(x[2]), V1<T>(x[3]))   // vec4(1, S, 1, 1)
+  CT(4, 1034, 4, V1<T>(x[0]), x[1], V2<T>(x[2], x[3]))   // vec4(1, S, 2)
+  CT(4, 1035, 4, V1<T>(x[0]), V1<T>(x[1]), x[2], x[3])   // vec4(1, 1, S, S)
+  CT(4, 1036, 4, V1<T>(x[0]), V1<T>(x[1]), x[2], V1<T>(x[3]))   // vec4(1, 1, S, 1)
+  CT(4, 1037, 4, V1<T>(x[0]), V1<T>(x[1]), V1<T>(x[2]), x[3])   // vec4(1, 1, 1, S)
+  CT(4, 1038, 4, V1<T>(x[0]), V1<T>(x[1]), V1<T>(x[2]), V1<T>(x[3]))   // vec4(1, 1, 1, 1)
+  CT(4, 1039, 4, V1<T>(x[0]), V1<T>(x[1]), V2<T>(x[2], x[3]))   // vec4(1, 1, 2)
+  CT(4, 1040, 4, V1<T>(x[0]), V2<T>(x[1], x[2]), x[3])   // vec4(1, 2, S)
+  CT(4, 1041, 4, V1<T>(x[0]), V2<T>(x[1], x[2]), V1<T>(x[3]))   // vec4(1, 2, 1)
+  CT(4, 1042, 4, V1<T>(x[0]), V3<T>(x[1], x[2], x[3]))   // vec4(1, 3)
+  CT(4, 1043, 4, V2<T>(x[0], x[1]), x[2], x[3])   // vec4(2, S, S)
+  CT(4, 1044, 4, V2<T>(x[0], x[1]), x[2], V1<T>(x[3]))   // vec4(2, S, 1)
+  CT(4, 1045, 4, V2<T>(x[0], x[1]), V1<T>(x[2]), x[3])   // vec4(2, 1, S)
+  CT(4, 1046, 4, V2<T>(x[0], x[1]), V1<T>(x[2]), V1<T>(x[3]))   // vec4(2, 1, 1)
+  CT(4, 1047, 4, V2<T>(x[0], x[1]), V2<T>(x[2], x[3]))   // vec4(2, 2)
+  CT(4, 1048, 4, V3<T>(x[0], x[1], x[2]), x[3])   // vec4(3, S)
+  CT(4, 1049, 4, V3<T>(x[0], x[1], x[2]), V1<T>(x[3]))   // vec4(3, 1)
   // truncation of longer vectors
   CT(2, 3, 3, V3<T>(x[0], x[1], x[2]))                // vec2(vec3)
   CT(2, 4, 4, V4<T>(x[0], x[1], x[2], x[3]))          // vec2(vec4)
